@@ -13,18 +13,19 @@ FGT(s) == [op |-> "forget", cnts |-> s, fit |-> TRUE, name |-> ""]
 RDP(f) == [op |-> "rdp", cnts |-> <<>>, fit |-> f, name |-> "d/c"]
 
 \* quick shapes
-Ops_2L1F == <<LKP("a"), LKP("a"), FGT(<<1>>)>>
+Ops_2L1F == <<LKP("a"), LKP("b"), FGT(<<1>>)>>                    \* lookups through two names of the file
 Ops_1L2F == <<LKP("a"), FGT(<<1>>), FGT(<<1>>)>>
-Ops_3L == <<LKP("a"), LKP("a"), LKP("a")>>
+Ops_3L == <<LKP("a"), LKP("b"), LKP("a")>>
+Ops_1LF2 == <<LKP("b"), FGT(<<2>>)>>                              \* over-counted forget (saturation)
+Ops_1LBF == <<LKP("a"), FGT(<<1, 1>>)>>                           \* batch_forget with two items
 \* thorough shapes
 Ops_2L2F == <<LKP("a"), LKP("b"), FGT(<<1>>), FGT(<<1>>)>>
 Ops_3L2F == <<LKP("a"), LKP("a"), LKP("b"), FGT(<<1>>), FGT(<<1>>)>>
-Ops_2N1F == <<LKP("a"), LKP("b"), FGT(<<1>>)>>                    \* two names of one file
 Ops_RF == <<RDP(FALSE), FGT(<<1>>)>>                              \* readdirplus (not delivered) vs forget
 Ops_RLF == <<RDP(FALSE), LKP("b"), FGT(<<1>>)>>
 Ops_RRF == <<RDP(FALSE), RDP(TRUE), FGT(<<1>>)>>
-Ops_LF2 == <<LKP("a"), LKP("b"), FGT(<<2>>)>>                     \* over-counted forget (saturation)
-Ops_LBF == <<LKP("a"), LKP("b"), FGT(<<1, 1>>)>>                  \* batch_forget with two items
+Ops_LF2 == <<LKP("a"), LKP("b"), FGT(<<2>>)>>
+Ops_LBF == <<LKP("a"), LKP("b"), FGT(<<1, 1>>)>>
 Ops_1L1F == <<LKP("a"), FGT(<<1>>)>>
 
 R0_0 == {0}
